@@ -6,8 +6,13 @@ a fair round-robin schedule reaches.  Where the run stops in the state the prope
 (`HeldByThird`) the driver prints the token the harness prints and lets the environment end the
 connection that holds the subject up — as the harness does.  `HeldBySelf` is no exemption (since
 b77088f): the model reaches it only where the cause of the end cannot be noticed at all (`selffull
-keepalive`: the receiver waits for ring space, no read is pending, the deadline is not armed —
-finding F8); the driver prints `held-up-by-self` there and makes the client go away, as the harness does.
+keepalive`: the receiver waits because the incoming ring is completely full, no read is pending, the
+deadline is not armed — finding F8); the driver prints `held-up-by-self` there and makes the client
+go away, as the harness does.
+
+The conditions are states the repaired code (`ReadFrom` after 8f682d1) is in once the harness has let
+the rings fill up: a receiver waits for space only with the incoming ring completely full (16 384
+bytes: 16 flood packets and the first 256 bytes of the 17th), otherwise it is inside a socket read.
 -/
 import Mqtt.Model.Lifecycle
 import Mqtt.Spec.Lifecycle
@@ -31,6 +36,11 @@ def endPkts : String → List Pkt × Nat
 
 def baseSh : Sh := { willFlag := true, clean := true }
 
+/-- the flood in the conditions with a full incoming ring: 20 packets, of which the ring holds 16 384
+bytes (the packet the processor is working on included); the rest is still on the wire -/
+def floodN : Nat := 20
+def floodWire : Nat := floodN * 1008 - 16384
+
 /-- the buffer condition as a state of the model (subject connection; one idle stopper for the
 final Server.Close) -/
 def condState (cond order : String) : Option St :=
@@ -41,12 +51,12 @@ def condState (cond order : String) : Option St :=
     some { sh := { baseSh with outR := { buf := 16128 }, peerReads := false, wmu := some (.w 0) },
            send := .write 8192, ks := [.idle], ws := [⟨.wait, 1008⟩] }
   | "infull" =>
-    some { sh := { baseSh with inR := { buf := 9072 }, stream := List.replicate 20 (floodPkt .foreign),
-                               wire := 11 * 1008, extBlocked := third },
+    some { sh := { baseSh with inR := { buf := 16384 }, stream := List.replicate floodN (floodPkt .foreign),
+                               wire := floodWire, extBlocked := third },
            recv := .space, proc := .acts [.foreign], ks := [.idle] }
   | "selffull" =>
-    some { sh := { baseSh with inR := { buf := 9072 }, stream := List.replicate 20 (floodPkt (.own 1008)),
-                               wire := 11 * 1008, outR := { buf := 16128 }, peerReads := false,
+    some { sh := { baseSh with inR := { buf := 16384 }, stream := List.replicate floodN (floodPkt (.own 1008)),
+                               wire := floodWire, outR := { buf := 16128 }, peerReads := false,
                                wmu := some .proc },
            recv := .space, proc := .ownWait 1008 [], send := .write 8192, ks := [.idle] }
   | "selfout" =>
@@ -56,13 +66,20 @@ def condState (cond order : String) : Option St :=
                                outR := { buf := 16128 }, peerReads := false, wmu := some .proc },
            recv := .read, proc := .ownWait 1008 [], send := .write 8192, ks := [.idle] }
   | "cross" =>
-    some { sh := { baseSh with inR := { buf := 9072 }, stream := List.replicate 20 (floodPkt .foreign),
-                               wire := 11 * 1008, extBlocked := third, outR := { buf := 16128 },
+    some { sh := { baseSh with inR := { buf := 16384 }, stream := List.replicate floodN (floodPkt .foreign),
+                               wire := floodWire, extBlocked := third, outR := { buf := 16128 },
                                peerReads := false, wmu := some (.w 0) },
            recv := .space, proc := .acts [.foreign], send := .write 8192, ks := [.idle], ws := [⟨.wait, 1008⟩] }
   | "chunked" =>
-    some { sh := { baseSh with inR := { buf := 9000 }, stream := [⟨3, 16003, .normal []⟩], wire := 7003 },
-           recv := .space, proc := .msg, ks := [.idle] }
+    -- the first 15 000 bytes of a 16 000-byte PUBLISH, in pieces, and then nothing: all of them are in
+    -- the ring, the processor waits for the rest, the receiver is inside a socket read (F3 regression:
+    -- before 8f682d1 the receiver stopped reading at 9000 bytes, waiting for a read block of free space)
+    some { sh := { baseSh with inR := { buf := 15000 }, stream := [⟨3, 16000, .normal []⟩], wire := 0 },
+           recv := .read, proc := .msg, ks := [.idle] }
+  | "chunkwhole" =>
+    -- the whole 16 000-byte PUBLISH in pieces of varying sizes (nobody is subscribed): it is processed,
+    -- the connection is idle afterwards
+    some { sh := { baseSh with stream := [⟨3, 16000, .normal []⟩], wire := 16000 }, ks := [.idle] }
   | _ => none
 
 def fuel : Nat := 4000
